@@ -7,6 +7,7 @@ import (
 	"fmt"
 	"os"
 	"path/filepath"
+	"regexp"
 	"runtime"
 	"sort"
 	"strconv"
@@ -69,6 +70,13 @@ func (prop) Cases(tier string, seed uint64) []core.Case {
 	for i := 0; i < nr; i++ {
 		cs = append(cs, core.Case{ID: fmt.Sprintf("race-%d", i), Kind: "stop", Seed: seed*7019 + uint64(i), N: 2, Race: true})
 	}
+	nbs := 8
+	if tier == "thorough" {
+		nbs = 80
+	}
+	for i := 0; i < nbs; i++ {
+		cs = append(cs, core.Case{ID: fmt.Sprintf("batchstop-%d", i), Kind: "batchstop", Seed: seed*7031 + uint64(i), N: 2})
+	}
 	// back-pressure: more points than all buffers hold, so the writer itself is blocked when the stop comes
 	nb := 4
 	if tier == "thorough" {
@@ -83,7 +91,9 @@ func (prop) Cases(tier string, seed uint64) []core.Case {
 func (prop) Run(x *core.Ctx) {
 	r := core.NewRng(x.Case.Seed, 7)
 	for i := 0; i < x.Case.N; i++ {
-		if x.Case.Kind == "fail" {
+		if x.Case.Kind == "batchstop" {
+			runBatchStop(x, r)
+		} else if x.Case.Kind == "fail" {
 			runFail(x, r)
 		} else {
 			runStop(x, r)
@@ -720,5 +730,7 @@ func firstWords(s string, n int) string {
 	}
 	return strings.Join(w, " ")
 }
+
+var reFromM = regexp.MustCompile(`FROM "?db"?\."?rp"?\."?(m\d+)"?`)
 
 var _ = sort.Strings
